@@ -134,9 +134,10 @@ func runC09(c *engine.Ctx) {
 	src, format := gen.RenderMaybeMerged(p, doc, true)
 	c.Ev("doc", format, len(src), tape.HashString(string(src)))
 	c.Sample = map[string]any{"format": format, "document": truncate(string(src), 1500)}
-	p0, _ := parseDoc(c, "C09.panic", src)
+	p0, perr0 := parseDoc(c, "C09.panic", src)
 	if p0 == nil {
 		c.Probe("author_document_rejected_by_parse")
+		c.Tag("rejected_reason", firstLineOf(fmt.Sprint(perr0)))
 		c.Fingerprint(false, "rejected")
 		return
 	}
@@ -296,6 +297,30 @@ func runC09(c *engine.Ctx) {
 	}
 	sort.Strings(fl)
 	c.Fingerprint(len(fl) >= 2 && len(hopFmts) >= 1, strings.Join(hopFmts, ">"), strings.Join(fl, ","))
+}
+
+func firstLineOf(s string) string {
+	if i := strings.IndexByte(s, '\n'); i >= 0 {
+		s = s[:i]
+	}
+	// drop positions and quoted values so that reasons group
+	for _, cut := range []string{" \"", " `"} {
+		if i := strings.Index(s, cut); i >= 0 {
+			s = s[:i]
+		}
+	}
+	if len(s) > 120 {
+		s = s[:120]
+	}
+	// positions out
+	out := make([]byte, 0, len(s))
+	for i := 0; i < len(s); i++ {
+		if s[i] >= '0' && s[i] <= '9' {
+			continue
+		}
+		out = append(out, s[i])
+	}
+	return string(out)
 }
 
 func walkAllSteps(steps pipeline.Steps, f func(pipeline.Step)) {
